@@ -32,6 +32,11 @@ pub(crate) struct Thread {
     /// Number of times the thread yielded
     pub yield_count: usize,
 
+    /// `true` when the thread was unparked while it was blocked on something
+    /// other than `park` (a lock, a join, a channel, ...) or had yielded. The
+    /// unpark is handed over once the thread becomes runnable again.
+    pending_unpark: bool,
+
     locals: LocalMap,
 
     /// `tracing` span used to associate diagnostics with the current thread.
@@ -101,6 +106,7 @@ impl Thread {
             dpor_vv: VersionVec::new(),
             last_yield: None,
             yield_count: 0,
+            pending_unpark: false,
             locals: HashMap::new(),
         }
     }
@@ -109,11 +115,34 @@ impl Thread {
         matches!(self.state, State::Runnable { .. })
     }
 
+    /// Makes the thread runnable. An unpark that has not been consumed by a
+    /// `park` yet is kept.
     pub(crate) fn set_runnable(&mut self) {
+        let unparked =
+            self.pending_unpark || matches!(self.state, State::Runnable { unparked: true });
+
+        self.pending_unpark = false;
+        self.state = State::Runnable { unparked };
+    }
+
+    /// Consumes the saved unpark, if any. Called by `park`.
+    pub(crate) fn consume_unpark(&mut self) {
+        debug_assert!(self.is_runnable());
         self.state = State::Runnable { unparked: false };
     }
 
+    /// Returns `true` if the thread is blocked in `park` (as opposed to being
+    /// blocked on a lock, a join, a channel, ...).
+    fn is_parked(&self) -> bool {
+        self.is_blocked() && self.operation.is_none()
+    }
+
     pub(crate) fn set_blocked(&mut self, location: Location) {
+        // An unpark that has not been consumed yet survives being blocked.
+        if matches!(self.state, State::Runnable { unparked: true }) {
+            self.pending_unpark = true;
+        }
+
         self.state = State::Blocked(location);
     }
 
@@ -155,13 +184,17 @@ impl Thread {
         self.set_unparked();
     }
 
-    /// Unpark a thread's state. If it is already runnable, store the unpark for
-    /// a future call to `park`.
+    /// Unpark a thread's state. If it is not parked, store the unpark for a
+    /// future call to `park`.
     fn set_unparked(&mut self) {
-        if self.is_blocked() || self.is_yield() {
-            self.set_runnable();
+        if self.is_parked() {
+            // The unpark is consumed by waking the thread up.
+            self.state = State::Runnable { unparked: false };
         } else if self.is_runnable() {
             self.state = State::Runnable { unparked: true }
+        } else if !self.is_terminated() {
+            // Blocked on an object or yielded: an unpark does not end that.
+            self.pending_unpark = true;
         }
     }
 }
